@@ -36,8 +36,20 @@ pub struct Case {
     pub ops: Vec<Op>,
 }
 
+/// a value written as `{c*N}` stands for the character c repeated N times (kept short in cases and replay files)
+pub fn expand(v: &str) -> String {
+    if let Some(body) = v.strip_prefix('{').and_then(|x| x.strip_suffix('}')) {
+        if let Some((c, n)) = body.split_once('*') {
+            if let Ok(n) = n.parse::<usize>() {
+                return c.repeat(n);
+            }
+        }
+    }
+    v.to_string()
+}
+
 pub fn values() -> Vec<String> {
-    vec!["x".to_string(), "7".to_string(), "".to_string(), "é✓ two".to_string(), "-3".to_string(), "y".repeat(300), "zé".repeat(200), "<Empty>".to_string()]
+    vec!["x".to_string(), "7".to_string(), "".to_string(), "é✓ two".to_string(), "-3".to_string(), "y".repeat(300), "zé".repeat(200), "<Empty>".to_string(), "{q*8185}".to_string(), "{r*70000}".to_string()]
 }
 
 fn ks() -> impl Strategy<Value = String> {
@@ -226,7 +238,7 @@ pub fn step(w: &mut World, op: &Op) -> Option<(String, String)> {
                 return None;
             }
             let node = w.node.as_mut().unwrap();
-            let (r, _) = w.admin[*db].send(node, &format!("set {} {}", k, v));
+            let (r, _) = w.admin[*db].send(node, &format!("set {} {}", k, expand(v)));
             node.pump();
             if !is_refusal(&r) {
                 let h = w.h(*db, k);
@@ -245,7 +257,7 @@ pub fn step(w: &mut World, op: &Op) -> Option<(String, String)> {
             let node = w.node.as_mut().unwrap();
             let cur = node.dbs.map.read().unwrap().get(DBS[*db]).and_then(|d| d.get_value(k.clone())).map(|x| x.version).unwrap_or(0);
             let ver = (cur + dv).max(0);
-            let (r, _) = w.admin[*db].send(node, &format!("set-safe {} {} {}", k, ver, v));
+            let (r, _) = w.admin[*db].send(node, &format!("set-safe {} {} {}", k, ver, expand(v)));
             node.pump();
             if !is_refusal(&r) {
                 let h = w.h(*db, k);
@@ -259,7 +271,7 @@ pub fn step(w: &mut World, op: &Op) -> Option<(String, String)> {
                 return None;
             }
             let node = w.node.as_mut().unwrap();
-            let (r, _) = w.admin[*db].send(node, &format!("resolve 7 {} {} {} {}", DBS[*db], k, ver, v));
+            let (r, _) = w.admin[*db].send(node, &format!("resolve 7 {} {} {} {}", DBS[*db], k, ver, expand(v)));
             node.pump();
             if !is_refusal(&r) {
                 let h = w.h(*db, k);
